@@ -461,6 +461,69 @@ fn numeral() -> BoxedStrategy<(Vec<u8>, u32)> {
     .boxed()
 }
 
+/// values too large for the quadratic reference conversion: the emitted text is evaluated by Horner's rule
+/// modulo three 61-bit primes (u128 arithmetic) and compared with the fingerprint of the value's digits;
+/// alphabet, absence of a leading zero and parse-back are checked exactly
+fn tostr_big(neg: bool, a: &[u64], radix: u32) -> Verdict {
+    use crate::refint::{fingerprint_u64_digits, FP_PRIMES};
+    if !(2..=36).contains(&radix) {
+        return Err("harness: radix outside the generated domain".into());
+    }
+    let x = bi(neg, a);
+    let text = must_return("to_str_radix", || x.to_str_radix(radix))?;
+    check_alphabet(&text, radix, "to_str_radix (large value)")?;
+    let body = text.strip_prefix('-').unwrap_or(&text);
+    let is_zero = gen::trim(a.to_vec()).is_empty();
+    if text.starts_with('-') != (neg && !is_zero) {
+        return Err("to_str_radix (large value): wrong sign".into());
+    }
+    if body.is_empty() || (body.starts_with('0') && body != "0") {
+        return Err("to_str_radix (large value): empty or leading zero".into());
+    }
+    let ad = x.magnitude().to_u64_digits();
+    for p in FP_PRIMES {
+        let mut h: u128 = 0;
+        for ch in body.bytes() {
+            h = (h * radix as u128 + (ch as char).to_digit(radix).unwrap() as u128) % p as u128;
+        }
+        if h as u64 != fingerprint_u64_digits(&ad, p) {
+            return Err(format!("to_str_radix({}) of a {}-digit value: the text does not denote the value modulo the 61-bit prime {}", radix, ad.len(), p));
+        }
+    }
+    match must_return("from_str_radix", || BigInt::from_str_radix(&text, radix))? {
+        Ok(v) => {
+            if v != x {
+                return Err("from_str_radix(to_str_radix(x)) != x for a large value".into());
+            }
+        }
+        Err(e) => return Err(format!("from_str_radix rejected to_str_radix's output for a large value: {:?}", e)),
+    }
+    // digit-vector form, same oracle
+    let r2 = if radix % 2 == 0 { radix * 7 } else { radix + 200 };
+    let dv = must_return("to_radix_le", || x.magnitude().to_radix_le(r2))?;
+    if dv.iter().any(|d| *d as u32 >= r2) || (dv.len() > 1 && dv.last() == Some(&0)) {
+        return Err(format!("to_radix_le({}) of a large value: digit out of range or leading zero", r2));
+    }
+    for p in FP_PRIMES {
+        let mut h: u128 = 0;
+        for d in dv.iter().rev() {
+            h = (h * r2 as u128 + *d as u128) % p as u128;
+        }
+        if h as u64 != fingerprint_u64_digits(&ad, p) {
+            return Err(format!("to_radix_le({}) of a {}-digit value does not denote the value modulo the prime {}", r2, ad.len(), p));
+        }
+    }
+    match must_return("from_radix_le", || BigUint::from_radix_le(&dv, r2))? {
+        Some(v) => {
+            if &v != x.magnitude() {
+                return Err("from_radix_le(to_radix_le(x)) != x for a large value".into());
+            }
+        }
+        None => return Err("from_radix_le rejected to_radix_le's output".into()),
+    }
+    Ok(Info::new(true).class("large_value_fingerprint_oracle"))
+}
+
 impl Property for C06 {
     fn id(&self) -> &'static str {
         "C06"
@@ -473,33 +536,40 @@ impl Property for C06 {
             Tier::Quick => 200,
             Tier::Thorough => 700,
         };
+        let huge_w = match tier { Tier::Quick => 0u32, Tier::Thorough => 1 };
+        let huge = (any::<bool>(), gen::big_nat(vec![800, 1500, 3000, 4096]), 2u32..=36).prop_map(|(s, a, r)| Case::new("tostr.big", vec![Arg::Z(s, a), Arg::U(r as u128)]));
         let bad_text = select(vec![0u32, 1, 37, 38, 256, u32::MAX]);
         let bad_digit = select(vec![0u32, 1, 257, 258, 1000, 512, 1024, 65536, 1 << 31, u32::MAX]);
         prop_oneof![
-            22 => (any::<bool>(), conv_value(ml), text_radix()).prop_map(|(s, a, r)| Case::new("tostr", vec![Arg::Z(s, a), Arg::U(r as u128)])),
-            1 => (any::<bool>(), gen::nat(2), bad_text).prop_map(|(s, a, r)| Case::new("tostr", vec![Arg::Z(s, a), Arg::U(r as u128)])),
-            16 => (any::<bool>(), conv_value(ml), digit_radix()).prop_map(|(s, a, r)| Case::new("toradix", vec![Arg::Z(s, a), Arg::U(r as u128)])),
-            1 => (any::<bool>(), gen::nat(2), bad_digit).prop_map(|(s, a, r)| Case::new("toradix", vec![Arg::Z(s, a), Arg::U(r as u128)])),
-            25 => numeral().prop_map(|(b, r)| Case::new("parse", vec![Arg::B(b), Arg::U(r as u128)])),
-            5 => (text_radix(), 0usize..=130, any::<u64>(), 0usize..40).prop_map(|(r, n, seed, zeros)| {
+            huge_w => huge,
+            220 => (any::<bool>(), conv_value(ml), text_radix()).prop_map(|(s, a, r)| Case::new("tostr", vec![Arg::Z(s, a), Arg::U(r as u128)])),
+            10 => (any::<bool>(), gen::nat(2), bad_text).prop_map(|(s, a, r)| Case::new("tostr", vec![Arg::Z(s, a), Arg::U(r as u128)])),
+            160 => (any::<bool>(), conv_value(ml), digit_radix()).prop_map(|(s, a, r)| Case::new("toradix", vec![Arg::Z(s, a), Arg::U(r as u128)])),
+            10 => (any::<bool>(), gen::nat(2), bad_digit).prop_map(|(s, a, r)| Case::new("toradix", vec![Arg::Z(s, a), Arg::U(r as u128)])),
+            250 => numeral().prop_map(|(b, r)| Case::new("parse", vec![Arg::B(b), Arg::U(r as u128)])),
+            50 => (text_radix(), 0usize..=130, any::<u64>(), 0usize..40).prop_map(|(r, n, seed, zeros)| {
                 // long well-formed numerals: lengths at every residue of the per-radix chunk size, long leading-zero runs
                 let mut s = vec![b'0'; zeros];
                 let mut x = seed | 1;
                 for _ in 0..n { x = x.wrapping_mul(6364136223846793005).wrapping_add(1442695040888963407); s.push(std::char::from_digit(((x >> 33) as u32) % r, r).unwrap() as u8); }
                 Case::new("parse", vec![Arg::B(s), Arg::U(r as u128)])
             }),
-            12 => (vec(any::<u8>(), 0..=70), digit_radix(), -1i128..=1, any::<bool>(), 0usize..30).prop_map(|(mut d, r, sg, clamp, zeros)| {
+            120 => (vec(any::<u8>(), 0..=70), digit_radix(), -1i128..=1, any::<bool>(), 0usize..30).prop_map(|(mut d, r, sg, clamp, zeros)| {
                 if clamp { for x in d.iter_mut() { *x = ((*x as u32) % r.min(256)) as u8; } }
                 let mut v = vec![0u8; zeros % 30 * (clamp as usize)];
                 v.extend(d);
                 Case::new("fromradix", vec![Arg::B(v), Arg::U(r as u128), Arg::I(sg)])
             }),
-            18 => (any::<bool>(), prop_oneof![gen::nat(2), gen::nat(0), gen::nat(5)], 0usize..TABLE.len(), 0usize..=40).prop_map(|(s, a, i, w)| Case::new("fmt", vec![Arg::Z(s, a), Arg::U(i as u128), Arg::U(w as u128)])),
+            180 => (any::<bool>(), prop_oneof![gen::nat(2), gen::nat(0), gen::nat(5)], 0usize..TABLE.len(), 0usize..=40).prop_map(|(s, a, i, w)| Case::new("fmt", vec![Arg::Z(s, a), Arg::U(i as u128), Arg::U(w as u128)])),
         ]
         .boxed()
     }
     fn check(&self, c: &Case) -> Verdict {
         match c.op.as_str() {
+            "tostr.big" => {
+                let (s, a) = c.z(0);
+                tostr_big(s, a, c.u(1) as u32)
+            }
             "tostr" => {
                 let (s, a) = c.z(0);
                 tostr(s, a, c.u(1) as u32)
@@ -536,6 +606,7 @@ impl Property for C06 {
     fn assumptions(&self) -> Vec<String> {
         vec![
             "reference digits come from RefInt division by the largest radix power below 2^32 (cross-checked against CPython)".into(),
+            "thorough adds values of 800..4096 digits whose text and digit vectors are decided by Horner evaluation modulo three 61-bit primes (plus exact alphabet / leading-zero / parse-back checks)".into(),
             "only the 320 static format specs of props/fmt_table.rs are exercised (Rust format specs are compile-time); width is a runtime argument 0..40".into(),
             "the recogniser encodes the documented grammar: one optional sign ('+' or, for BigInt, '-'), first character after the sign a digit, '_' anywhere later, digits below the radix in either case".into(),
         ]
